@@ -805,6 +805,7 @@ func main() {
 		nMax = maxN
 	}
 	phase := map[string]float64{}
+	tapeOK := true
 
 	// probe: the harness can own the function's randomness by replacing crypto/rand.Reader
 	realReader := crand.Reader
@@ -820,8 +821,16 @@ func main() {
 		crand.Reader = realReader
 		want := bytes.Repeat([]byte{0x11}, 32)
 		want[3], want[19] = 1, 2
-		if !bytes.Equal(buf, want) || atomic.LoadInt64(&pt.reads) != before+1 || pt.bad != 0 {
-			run.Fatal("replacing crypto/rand.Reader does not feed BatchVerifyBLSSignaturesOneMessage (probe: buf=%x reads=%d bad=%d)", buf, pt.reads-before, pt.bad)
+		if !bytes.Equal(buf, want) {
+			run.Fatal("replacing crypto/rand.Reader has no effect in this toolchain (probe: buf=%x)", buf)
+		}
+		if atomic.LoadInt64(&pt.reads) != before+1 || pt.bad != 0 {
+			// the function draws its randomness differently from "one read of 16 bytes per entry": that is
+			// not wrong, but the chosen-seed tapes below are laid out for that pattern. They are not
+			// applied then (reported, exhaustive:false); everything under the real reader still runs.
+			tapeOK = false
+			run.Set("seed_tapes_not_applicable", fmt.Sprintf("BatchVerifyBLSSignaturesOneMessage made %d reads of crypto/rand.Reader for one call (%d of unexpected length); the tapes assume one read of 16 bytes per entry", pt.reads-before, pt.bad))
+			run.MarkCapped()
 		}
 	}
 
@@ -870,6 +879,9 @@ func main() {
 	var tapes []string
 	var tapeReads, tapeBad, tapeCalls int64
 	runTape := func(t *tape, cs []*bcase) {
+		if !tapeOK {
+			return
+		}
 		crand.Reader = t
 		ev.Par(len(cs), func(i int) {
 			var st stats
@@ -935,7 +947,7 @@ func main() {
 	caseCounts["repeated-key-patterns(total)"] = patCases
 	phase["repeated-keys"] = time.Since(t0).Seconds()
 	crand.Reader = realReader
-	if tapeReads != tapeCalls || tapeBad != 0 {
+	if tapeOK && (tapeReads != tapeCalls || tapeBad != 0) {
 		run.Fatal("seed tape accounting: %d batch calls but %d reads of crypto/rand.Reader (%d of unexpected length): the tape does not own the randomness", tapeCalls, tapeReads, tapeBad)
 	}
 	{ // the real reader is back
